@@ -6,6 +6,7 @@ mod pgen;
 mod pkt;
 mod pktops;
 mod v3text;
+mod v5text;
 mod report;
 mod sio;
 mod tables;
